@@ -99,8 +99,47 @@ INPLACE = dict(BASE, params=dict(self='obj:Factor', other='obj:Factor'),
 UNARY = dict(BASE, params=dict(self='obj:Factor', out='none'), requires=finv('self'),
              ensures=dict({'same-domain': 'same(result.domain, self.domain)'}, **finv_named('result', 'result-invariant')))
 
+def _bind_marginalize(eng, st, bound, res, node):
+    """Domain.marginalize's proven clauses (members, coverage, order) determine its result uniquely as the in-order
+    selection of self.attrs not in attrs; the callee result is introduced in that form so that the selection-uniqueness
+    lemma can relate it to numpy's axis removal."""
+    selfd, attrs = bound['self'], bound['attrs']
+    A = eng.getattr(st, selfd, 'attrs', node)
+    S = eng.getattr(st, selfd, 'shape', node)
+    if isinstance(attrs, E.Tup):
+        attrs = eng.arr_from_tup(attrs)
+    keep = lambda e, s, i: z3.Not(e.membership(s, attrs, A.at(e, s, i)))
+    kept = eng.make_filter(st, A, keep, name='kept-attrs')
+    pos = kept.pos
+    from ..vc.arrays import Arr
+    st.fields[(str(res.t), 'attrs')] = kept
+    st.fields[(str(res.t), 'shape')] = Arr(kept.n, lambda e, s, j: S.at(e, s, pos(j)), name='kept-shape')
+
+
+import z3
+from ..vc import engine as E
+MARGINALIZE_SELECTION = dict(D.MARGINALIZE_CALLEE, pure=False, bind=_bind_marginalize)
+
+_RED_REQ = ['all_in(attrs, self.domain.attrs)', D.distinct('attrs')]
+REDUCE = dict(BASE, params=dict(self='obj:Factor', attrs='seq:obj'), requires=finv('self') + _RED_REQ,
+              ensures=dict({'remaining-attributes-in-order': 'seq_equal(result.domain.attrs, self.domain.invert(attrs))'},
+                           **finv_named('result', 'result-invariant')))
+
 REG = {'.axes': AXES_CALLEE, '.contains': CONTAINS_CALLEE, '.project': D.PROJECT_CALLEE, '.marginalize': D.MARGINALIZE_CALLEE,
        '.merge': MERGE_CALLEE, 'Domain': D.DOMAIN_CALLEE, '.expand': EXPAND_CALLEE, '.__add__': BINARY_CALLEE}
+
+INVERT_CALLEE = dict(arg_names=['attrs'], returns='seq:obj', pure=True, requires=[],
+                     ensures={k: v % dict(r='result') for k, v in D._COMPLEMENT.items()})
+REG_RED = dict(REG)
+REG_RED['.marginalize'] = MARGINALIZE_SELECTION
+REG_RED['.invert'] = INVERT_CALLEE
+
+# Aggregations (sum / logsumexp / max over named axes, and project / condition built on them) are NOT under deductive
+# contract: the obligation "numpy's positional axis removal yields the attribute order of Domain.marginalize" needs the
+# selection-uniqueness lemma plus a two-way membership argument whose ground instances z3 does not settle within the budget
+# (timeouts at 30 s).  They are decided by the bounded tier only.  STRETCH keeps the contracts for a later attempt.
+STRETCH = [('Factor.sum', REDUCE, REG_RED, 'attribute list'), ('Factor.logsumexp', REDUCE, REG_RED, 'attribute list'),
+           ('Factor.max', REDUCE, REG_RED, 'attribute list')]
 
 FUNCTIONS = [
     ('Factor.expand', EXPAND, REG, ''),
